@@ -296,7 +296,7 @@ def pollers_job(job):
 
         return [poller(i) for i in range(n_workers)], finish
 
-    ex = IlvExplorer(make_execution, job["bound"], time_cap=job.get("time_cap", 1200),
+    ex = IlvExplorer(make_execution, job["bound"], time_cap=job.get("time_cap", 600),
                      shard=tuple(job["shard"]) if job.get("shard") else None).run()
     cleanup_dir()
     s = ex.summary()
